@@ -18,7 +18,10 @@ pub fn run(ctx: &Ctx) -> i32 {
          input is parsed twice in the no-alloc configurations: through slice iterators and through filter iterators \
          over pre-built '_'-separated buffers (inexact size hints). The whole check runs in two builds of the harness - \
          release (opt-level 3) and dbgchk (opt-level 1, debug assertions on) - because the optimiser may elide an \
-         allocation that an unoptimised build of the same source performs. Inputs: \
+         allocation that an unoptimised build of the same source performs. A second sub-check applies C12's generated \
+         big-integer operations (small/large add and mul, long_mul, pow, shifts, *=) directly in the configurations \
+         without `alloc` and requires a zero delta around the library call itself (positive control: the heap \
+         configurations allocate). Inputs: \
          the midpoint / long-tail / closest-approach families weighted to the big-integer path (negative and positive \
          digit comparison, 5-powers >= 135 so large_mul/long_mul temporaries exist), plus shaped random and range \
          ends, f32 and f64. Non-trivial: the real code took the big-integer path (default or compact \
@@ -124,6 +127,37 @@ pub fn run(ctx: &Ctx) -> i32 {
         Ok(())
     });
     rep.absorb(r);
+    // second sub-check: the big-integer API itself (C12's generated operations) in the configurations without
+    // `alloc`.  The library call is bracketed inside mlc (operands converted outside the window).
+    crate::cfgs::set_alloc_probe(count);
+    let api_cases = ctx.cases(300_000, 10_000_000);
+    let r2 = run_recipes(ctx.seed ^ 0x15a, api_cases, ctx.threads, 15, |r, stats| {
+        let c = super::c12::op_case(r);
+        for cfg in CFGS.iter() {
+            let out = crate::runner::catch(|| (cfg.big_apply)(&c.x, &c.op));
+            let Ok(out) = out else {
+                stats.count("api:panicked-calls-skipped(see C12)");
+                continue;
+            };
+            let delta = crate::cfgs::last_op_allocs();
+            if !cfg.alloc && delta != 0 {
+                return Err(Failure::violation(
+                    format!("config {} (no alloc feature): big-integer operation {} performed {} heap allocation(s) on a {}-limb operand", cfg.name, c.name, delta, c.x.len()),
+                    format!("alloc-api:{}:{}", cfg.name, c.name),
+                    json!({"kind": "bigint-alloc", "config": cfg.name, "op": format!("{:?}", c.op), "op_name": c.name, "x": c.x.iter().map(|l| format!("{:#x}", l)).collect::<Vec<_>>(), "extra": {"allocations": delta}}),
+                ));
+            }
+            if cfg.alloc && delta > 0 && matches!(out, crate::cfgs::BigOut::Ok { .. }) {
+                stats.count("api:positive-control(heap-config-allocated)");
+            }
+        }
+        stats.class(&format!("api / {}", c.name));
+        stats.count("api:operations");
+        stats.nontrivial.push(crate::gen::mix(r.a ^ r.b.rotate_left(17) ^ 0x15a));
+        Ok(())
+    });
+    rep.absorb(r2);
+    require_counter(&mut rep, "api:positive-control(heap-config-allocated)", 1000);
     require_counter(&mut rep, "big-integer-path", 1000);
     require_counter(&mut rep, "big-integer-path-with-5^>=135", 1000);
     require_counter(&mut rep, "positive-control(alloc-config-allocated)", 1000);
@@ -132,6 +166,22 @@ pub fn run(ctx: &Ctx) -> i32 {
 
 pub fn replay(v: &serde_json::Value) -> Result<bool, String> {
     let case = &v["case"];
+    if case["kind"] == "bigint-alloc" {
+        let r = crate::gen::Recipe::from_json(&v["recipe"]).ok_or("replay: a bigint-alloc replay needs the recipe")?;
+        crate::cfgs::set_alloc_probe(count);
+        let c = super::c12::op_case(&r);
+        let mut bad = false;
+        for cfg in CFGS.iter() {
+            if crate::runner::catch(|| (cfg.big_apply)(&c.x, &c.op)).is_ok() {
+                let delta = crate::cfgs::last_op_allocs();
+                println!("replay: config {} {} -> {} allocation(s)", cfg.name, c.name, delta);
+                if !cfg.alloc && delta != 0 {
+                    bad = true;
+                }
+            }
+        }
+        return Ok(bad);
+    }
     let fmt = match case["format"].as_str() {
         Some("f32") => Fmt::F32,
         Some("f64") => Fmt::F64,
